@@ -1,7 +1,7 @@
 PROPERTY = "C03"
 ENTRY = {
         "text": "Access.tla (decision written from the statement: allow-list mode iff the allowed list is non-empty, admitted iff address or ClientID allowed, "
-                "else excluded iff address or ClientID disallowed; blocked names by exact / ||name^ / *.name / ||*^, optionally restricted to one query type ($dnstype); list entries in another letter case leave the answer open; SetLists is repeatable and only the lists posted last decide; denial = no reply on UDP and DNSCrypt, REFUSED elsewhere; "
+                "else excluded iff address or ClientID disallowed; blocked names by exact / ||name^ / *.name / ||*^, optionally restricted to one query type ($dnstype); list entries in another letter case leave the answer open; SetLists (API) and LoadConfig (server created/reconfigured from a configuration; empty blocked hosts = documented defaults) alternate in histories and only the lists given last, as GET /control/access/list reports them, decide; denial = no reply on UDP and DNSCrypt, REFUSED elsewhere; "
                 "upstream, filter, query log and statistics move only for served requests) is model-checked by TLC over every history of <= 2 reconfigurations and "
                 "<= 2 requests of a small universe and enumerated over every disjoint pair of lists of size <= 2 out of 14 entries (IPs, CIDRs incl. /0 and full length, "
                 "both families, ClientIDs; 8.6e3 configurations x 32 addresses x 3 ClientIDs) and every blocked-hosts list of size <= 2 out of 16 patterns x 16 names x 5 query types. "
